@@ -188,6 +188,65 @@ def discharge_const(site):
     return None
 
 
+_SPLIT_SUMMARY = {}
+
+
+def _returns_head_of_split(g):
+    """index k such that every Ok(..) returned by g wraps the first half of `split_at_checked(x, arg_k)`; None otherwise"""
+    if g.id in _SPLIT_SUMMARY:
+        return _SPLIT_SUMMARY[g.id]
+    from .dataflow import Flow
+    res = None
+    try:
+        defs = Defs(g)
+        splits = [t for bi, t in g.calls() if strip_generics(callee_name(t) or "").endswith("split_at_checked") and len(t["args"]) == 2]
+        if len(splits) == 1:
+            t = splits[0]
+            p = op_place(t["args"][1])
+            k = None
+            for _ in range(4):
+                if p is None or p["p"]:
+                    break
+                if 1 <= p["l"] <= g.argc:
+                    k = p["l"] - 1
+                    break
+                d = defs.single(p["l"])
+                if d and d[0] == "st" and d[3]["k"] == "=" and d[3]["rv"]["k"] == "use":
+                    p = op_place(d[3]["rv"]["op"])
+                else:
+                    break
+            if k is not None:
+                flow = Flow(g)
+                oks = [st for b in g.blocks for st in b["s"] if st["k"] == "=" and st["lhs"]["l"] == 0 and not st["lhs"]["p"]
+                       and st["rv"]["k"] == "agg" and st["rv"].get("variant") == "Ok"]
+                if oks and all(any(kk == "call" and v and strip_generics(v).endswith("split_at_checked") for kk, v in flow.operand_origins(st["rv"]["ops"][0]))
+                               and not any(kk == "call" and v and strip_generics(v).split("::")[-1] in ("index", "get", "split_at", "split_at_mut", "iter") for kk, v in flow.operand_origins(st["rv"]["ops"][0]))
+                               for st in oks):
+                    # the Ok payload must be the head (field .0 of the pair), not the tail
+                    def is_head(o):
+                        q = op_place(o)
+                        for _ in range(6):
+                            if q is None:
+                                return False
+                            if q["p"]:
+                                fs = [e.get("f") for e in q["p"] if isinstance(e, dict) and "f" in e]
+                                return bool(fs) and fs[-1] == 0
+                            d = defs.single(q["l"])
+                            if d and d[0] == "st" and d[3]["k"] == "=" and d[3]["rv"]["k"] == "use":
+                                q = op_place(d[3]["rv"]["op"])
+                            elif d and d[0] == "st" and d[3]["k"] == "=" and d[3]["rv"]["k"] == "ref" and d[3]["rv"]["pl"]["p"] == ["*"]:
+                                q = {"l": d[3]["rv"]["pl"]["l"], "p": []}
+                            else:
+                                return False
+                        return False
+                    if all(is_head(st["rv"]["ops"][0]) for st in oks):
+                        res = k
+    except Exception:
+        res = None
+    _SPLIT_SUMMARY[g.id] = res
+    return res
+
+
 class Discharger:
     """Per-function context for guard/type/size rules."""
 
@@ -233,6 +292,88 @@ class Discharger:
                 return p
             p = q
         return p
+
+    def _stable_bases(self):
+        """locals whose fields cannot change between two reads: never stored to through a projection, never mutably borrowed
+        (with a projection or as a whole), defined at most once"""
+        if hasattr(self, "_sb"):
+            return self._sb
+        fn = self.fn
+        bad = set()
+        ndefs = {}
+        for b in fn.blocks:
+            for st in b["s"]:
+                if st["k"] != "=":
+                    continue
+                l = st["lhs"]["l"]
+                if st["lhs"]["p"]:
+                    bad.add(l)
+                else:
+                    ndefs[l] = ndefs.get(l, 0) + 1
+                rv = st["rv"]
+                if rv["k"] in ("ref", "rawptr") and (rv.get("mut") or rv["k"] == "rawptr"):
+                    bad.add(rv["pl"]["l"])
+            t = b["t"]
+            if t["k"] == "call" and isinstance(t.get("dest"), dict):
+                l = t["dest"]["l"]
+                if t["dest"]["p"]:
+                    bad.add(l)
+                else:
+                    ndefs[l] = ndefs.get(l, 0) + 1
+        self._sb = {l for l in range(len(fn.locals)) if l not in bad and ndefs.get(l, 0) <= 1}
+        return self._sb
+
+    def vkey(self, op):
+        """a key that identifies the value read by `op` across statements: the originating local, or — for a field read of a
+        stable base — the place itself, so that two separate reads of `v.left.0` are recognised as the same value"""
+        p = self.src_local(op)
+        if p is None:
+            return None
+        if p["p"]:
+            q = p
+        else:
+            d = self.defs.single(p["l"])
+            q = None
+            if d is not None and d[0] == "st" and d[3]["k"] == "=" and d[3]["rv"]["k"] == "use":
+                q = op_place(d[3]["rv"]["op"])
+            if q is None or not q["p"]:
+                return p["l"]
+        # q is a projected place: fields only (no index, at most leading derefs of a shared reference)
+        if q["l"] not in self._stable_bases():
+            return p["l"] if not p["p"] else None
+        path = []
+        for e in q["p"]:
+            if e == "*":
+                ty = self.fn.local_ty(q["l"])
+                if path or not ty.startswith("&") or ty.startswith("&mut "):
+                    return p["l"] if not p["p"] else None
+                path.append("*")
+            elif isinstance(e, dict) and "f" in e:
+                path.append(e["f"])
+            elif isinstance(e, dict) and "v" in e:
+                path.append(("v", e["v"]))
+            else:
+                return p["l"] if not p["p"] else None
+        last = q["p"][-1]
+        self._key_ty = getattr(self, "_key_ty", {})
+        k = ("P", q["l"], tuple(path))
+        if isinstance(last, dict) and last.get("t"):
+            self._key_ty[k] = last["t"]
+        elif last == "*":
+            self._key_ty[k] = self.fn.local_ty(q["l"])[1:].strip()
+        return k
+
+    def _canon(self, k):
+        """keys recorded by _cmp_edges are vkeys; accept a plain local and map it to the key of the value it holds"""
+        if isinstance(k, int):
+            kk = self.vkey({"cp": {"l": k, "p": []}})
+            return kk if kk is not None else k
+        return k
+
+    def key_ty(self, k):
+        if isinstance(k, tuple):
+            return getattr(self, "_key_ty", {}).get(k)
+        return self.fn.local_ty(k)
 
     def eval_const(self, op, depth=8):
         """integer value of an operand if it folds from literals through copies,
@@ -349,7 +490,7 @@ class Discharger:
         want = m.group(1)
         og = self.flow.operand_origins(call["args"][0])
         if not any(k == "call" and v and strip_generics(v).endswith("split_at_checked") for k, v in og):
-            return None
+            return self._split_helper(call["args"][0], want, site)
         for bi, t in self.fn.calls():
             if strip_generics(callee_name(t) or "").endswith("split_at_checked"):
                 a = t["args"][1]
@@ -357,6 +498,47 @@ class Discharger:
                 val = const_operand(a)
                 if (txt == want or txt == "const %s" % want or (val is not None and str(val) == want)) and bi in self.dom.get(site.bb, ()):
                     return "guard: slice is the head of split_at_checked(%s) on its Some arm, so it has exactly %s elements" % (want, want)
+        return None
+
+    def _split_helper(self, op, want, site):
+        """the slice comes from `self.take(N)?` where the helper returns the head of `split_at_checked(n)` for its argument n"""
+        fn = self.fn
+        p = op_place(op)
+        call = None
+        for _ in range(10):
+            if p is None:
+                return None
+            d = self.defs.single(p["l"])
+            if d is None:
+                return None
+            if d[0] == "call":
+                n = strip_generics(callee_name(d[3]) or "").split("::")[-1]
+                if n in ("branch", "unwrap", "expect") and d[3]["args"]:
+                    p = op_place(d[3]["args"][0])
+                    continue
+                call = d[3]
+                break
+            rv = d[3].get("rv", {})
+            if rv.get("k") == "use":
+                p = op_place(rv["op"])
+            elif rv.get("k") == "ref" and rv["pl"]["p"] == ["*"]:
+                p = {"l": rv["pl"]["l"], "p": []}
+            else:
+                return None
+        if call is None:
+            return None
+        c = call.get("callee") or {}
+        g = self.F.fns.get(c.get("rid")) or self.F.fns.get(c.get("id"))
+        if g is None:
+            return None
+        k = _returns_head_of_split(g)
+        if k is None or k >= len(call["args"]):
+            return None
+        a = call["args"][k]
+        txt = a.get("c", {}).get("text", "")
+        val = const_operand(a)
+        if txt == want or txt == "const %s" % want or (val is not None and str(val) == want):
+            return "guard: slice is returned by %s(%s), which hands back the head of split_at_checked(n) for that argument" % (g.name.split("::")[-1], want)
         return None
 
     # ---- rules -----------------------------------------------------
@@ -551,7 +733,7 @@ class Discharger:
             og = self.flow.operand_origins(o)
             calls = {strip_generics(v).split("::")[-1] for k, v in og if k == "call" and v}
             consts = [v for k, v in og if k == "const" and isinstance(v, int)]
-            if not calls and not consts and not any(k == "field" for k, v in og):
+            if not calls and not consts and not any(k == "field" for k, v in og) and not any(k == "arg" for k, v in og):
                 return None
             if any(isinstance(v, int) and v > 1 << 32 for v in consts):
                 return None
@@ -571,32 +753,32 @@ class Discharger:
             op = site.what.split(":")[1]
             a, b = site.node["ops"]
             ca, cb = const_operand(a), const_operand(b)
-            pa = self.src_local(a)
+            ka = self.vkey(a)
             # x - C guarded by dominating `x >= C'` (C' >= C) on the true edge; x + C guarded by `x <= C'` / `x < C'`
-            if pa is not None and not pa["p"] and cb is not None:
-                ty = fn.local_ty(pa["l"])
+            if ka is not None and cb is not None:
+                ty = self.key_ty(ka)
                 rng = INT_RANGE.get(ty)
-                lo, hi = self.range_of(pa["l"], site.bb)
+                lo, hi = self.range_of(ka, site.bb)
                 if rng:
                     if op == "Sub" and lo is not None and lo - cb >= rng[0]:
-                        return "guard: dominating comparison gives %s >= %d" % (self._nm(pa["l"]), lo)
+                        return "guard: dominating comparison gives %s >= %d" % (self._nm(ka), lo)
                     if op == "Add" and hi is not None and hi + cb <= rng[1]:
-                        return "guard: dominating comparison gives %s <= %d" % (self._nm(pa["l"]), hi)
+                        return "guard: dominating comparison gives %s <= %d" % (self._nm(ka), hi)
                     if op == "Mul" and hi is not None and lo is not None and rng[0] <= lo * cb and hi * cb <= rng[1]:
-                        return "guard: dominating comparisons bound %s in [%d,%d]" % (self._nm(pa["l"]), lo, hi)
-            pb = self.src_local(b)
-            if ca is not None and pb is not None and not pb["p"] and op in ("Add", "Mul"):
-                ty = fn.local_ty(pb["l"])
+                        return "guard: dominating comparisons bound %s in [%d,%d]" % (self._nm(ka), lo, hi)
+            kb = self.vkey(b)
+            if ca is not None and kb is not None and op in ("Add", "Mul"):
+                ty = self.key_ty(kb)
                 rng = INT_RANGE.get(ty)
-                lo, hi = self.range_of(pb["l"], site.bb)
+                lo, hi = self.range_of(kb, site.bb)
                 if rng and hi is not None and lo is not None:
                     r = (ca + hi) if op == "Add" else max(ca * hi, ca * lo)
                     if rng[0] <= r <= rng[1]:
-                        return "guard: dominating comparisons bound %s in [%d,%d]" % (self._nm(pb["l"]), lo, hi)
+                        return "guard: dominating comparisons bound %s in [%d,%d]" % (self._nm(kb), lo, hi)
             # x - y guarded by dominating `x >= y` / `y <= x`
-            if pa is not None and pb is not None and not pa["p"] and not pb["p"] and op == "Sub":
-                if self.dominating_cmp(pa["l"], pb["l"], site.bb):
-                    return "guard: dominated by %s >= %s" % (self._nm(pa["l"]), self._nm(pb["l"]))
+            if ka is not None and kb is not None and op == "Sub":
+                if self.dominating_cmp(ka, kb, site.bb):
+                    return "guard: dominated by %s >= %s" % (self._nm(ka), self._nm(kb))
         if site.kind == "K3" and site.what == "OverflowNeg":
             pass
         if site.kind == "K3" and site.what in ("DivisionByZero", "RemainderByZero"):
@@ -610,6 +792,9 @@ class Discharger:
                     return "guard: dominated by a non-zero test of the divisor"
         if site.kind == "K3" and site.what == "BoundsCheck":
             ln, ix = site.node["ops"]
+            r = self._range_iter_index(ln, ix)
+            if r:
+                return r
             lv = const_operand(ln)
             p = self.src_local(ix)
             if p is not None and not p["p"]:
@@ -660,6 +845,112 @@ class Discharger:
                             return "guard: dominating comparisons bound the converted value in [%d,%d]" % (lo, hi)
         return None
 
+    def slice_copy_rule(self, site):
+        """`dst[..src.len()].copy_from_slice(&src)` / `dst[a..a + src.len()]`: the destination was cut to the source's length"""
+        if site.kind != "K4" or "copy_from_slice" not in site.what and "clone_from_slice" not in site.what:
+            return None
+        args = site.node["args"]
+        if len(args) != 2:
+            return None
+
+        def root(o):
+            """the place a (possibly unsized / reborrowed) reference operand points to"""
+            p = op_place(o)
+            for _ in range(6):
+                if p is None:
+                    return None
+                if p["p"]:
+                    return (p["l"], tuple(e["f"] if isinstance(e, dict) and "f" in e else e for e in p["p"] if e != "*"))
+                d = self.defs.single(p["l"])
+                if d is None or d[0] != "st" or d[3]["k"] != "=":
+                    return (p["l"], ())
+                rv = d[3]["rv"]
+                if rv["k"] in ("use", "cast"):
+                    p = op_place(rv["op"])
+                elif rv["k"] in ("ref", "rawptr"):
+                    p = rv["pl"]
+                    if not [e for e in p["p"] if e != "*"] and "*" not in p["p"]:
+                        return (p["l"], ())
+                    if "*" in p["p"] and len(p["p"]) == 1:
+                        p = {"l": p["l"], "p": []}
+                        continue
+                    return (p["l"], tuple(e["f"] if isinstance(e, dict) and "f" in e else e for e in p["p"] if e != "*"))
+                else:
+                    return (p["l"], ())
+            return None
+        src_root = root(args[1])
+        # destination: result of an index call with a RangeTo / Range whose end is len(src)
+        dc = self._producer_call(args[0])
+        if dc is None:
+            # through a reborrow `&mut (*_x)`
+            p = op_place(args[0])
+            d = self.defs.single(p["l"]) if p is not None and not p["p"] else None
+            if d and d[0] == "st" and d[3]["k"] == "=" and d[3]["rv"]["k"] == "ref":
+                q = d[3]["rv"]["pl"]
+                dd = self.defs.single(q["l"])
+                if dd and dd[0] == "call":
+                    dc = dd[3]
+        if dc is None or not strip_generics(callee_name(dc) or "").split("::")[-1] in ("index_mut", "index") or len(dc["args"]) != 2:
+            return None
+        rp = op_place(dc["args"][1])
+        rd = self.defs.single(rp["l"]) if rp is not None and not rp["p"] else None
+        if not (rd and rd[0] == "st" and rd[3]["k"] == "=" and rd[3]["rv"]["k"] == "agg" and rd[3]["rv"].get("ak") == "adt" and rd[3]["rv"]["adt"].endswith("RangeTo")):
+            return None
+        lc = self._producer_call(rd[3]["rv"]["ops"][0])
+        if lc is None or not strip_generics(callee_name(lc) or "").endswith("::len") or not lc["args"]:
+            return None
+        if src_root is not None and root(lc["args"][0]) == src_root:
+            return "guard: the destination is cut with `..src.len()` of the very source slice"
+        return None
+
+    def _range_iter_index(self, ln, ix):
+        """`for i in 0..x.len()` (possibly .rev() / .step_by()): the index comes out of Iterator::next on an iterator built from
+        a Range whose end is the length of the very slice being indexed"""
+        fn = self.fn
+        p = self.src_local(ix)
+        if p is None or p["p"]:
+            return None
+        d = self.defs.single(p["l"])
+        # i = (opt as Some).0
+        if not (d and d[0] == "st" and d[3]["k"] == "=" and d[3]["rv"]["k"] == "use"):
+            return None
+        q = op_place(d[3]["rv"]["op"])
+        if q is None or not q["p"]:
+            return None
+        nd = self.defs.single(q["l"])
+        if not (nd and nd[0] == "call" and strip_generics(callee_name(nd[3]) or "").endswith("::next")):
+            return None
+        og = self.flow.operand_origins(nd[3]["args"][0])
+        if not any(k == "agg" and str(v).endswith("Range") or k == "agg" and "range::Range" in str(v) for k, v in og):
+            return None
+        calls = {strip_generics(v).split("::")[-1] for k, v in og if k == "call" and v}
+        if calls - {"into_iter", "rev", "len", "next", "iter", "deref", "as_slice", "as_ref", "borrow", "step_by", "clone"}:
+            return None
+        # the Range aggregate: start is a constant >= 0, end is a `len` of the slice whose length the check uses
+        for b in fn.blocks:
+            for st in b["s"]:
+                if st["k"] == "=" and st["rv"]["k"] == "agg" and st["rv"].get("ak") == "adt" and st["rv"]["adt"].endswith("ops::range::Range"):
+                    ops = st["rv"]["ops"]
+                    if len(ops) != 2 or const_operand(ops[0]) is None:
+                        continue
+                    ec = self._producer_call(ops[1])
+                    end_len_of = None
+                    if ec is not None and strip_generics(callee_name(ec) or "").endswith("::len") and ec["args"]:
+                        end_len_of = self.defs.resolve_place(ec["args"][0])
+                    # the bounds check's length: Len/PtrMetadata of a place
+                    lp = self.src_local(ln)
+                    ld = self.defs.single(lp["l"]) if lp is not None and not lp["p"] else None
+                    chk_of = None
+                    if ld and ld[0] == "st" and ld[3]["k"] == "=" and ld[3]["rv"]["k"] in ("len", "un", "ptrmeta"):
+                        src = ld[3]["rv"].get("pl") or op_place(ld[3]["rv"].get("a") or {})
+                        chk_of = self.defs.resolve_place({"cp": src}) if src else None
+                    if end_len_of is not None and chk_of is not None:
+                        def base(pl):
+                            return (pl["l"], tuple(e["f"] if isinstance(e, dict) and "f" in e else e for e in pl["p"] if e != "*"))
+                        if base(end_len_of) == base(chk_of):
+                            return "guard: index comes from a Range ending at the length of the indexed slice"
+        return None
+
     def _producer_call(self, op):
         p = op_place(op)
         for _ in range(4):
@@ -678,6 +969,8 @@ class Discharger:
         return None
 
     def _nm(self, l):
+        if isinstance(l, tuple):
+            return "%s.%s" % (self.fn.local_name(l[1]) or "_%d" % l[1], ".".join(str(x) for x in l[2]))
         return self.fn.local_name(l) or "_%d" % l
 
     # ---- dominating comparison facts
@@ -703,18 +996,17 @@ class Discharger:
                     cmp_st = st
             if cmp_st is not None and cmp_st["rv"]["k"] == "bin" and cmp_st["rv"]["op"] in ("Lt", "Le", "Gt", "Ge", "Eq", "Ne"):
                 a, c = cmp_st["rv"]["a"], cmp_st["rv"]["b"]
-                pa, pc = self.src_local(a), self.src_local(c)
                 true_t = t["else"] if 0 in m else m.get(1)
                 false_t = m.get(0, t["else"])
                 out.append((bi, true_t, false_t, cmp_st["rv"]["op"],
-                            pa["l"] if pa is not None and not pa["p"] else None, self.eval_const(a),
-                            pc["l"] if pc is not None and not pc["p"] else None, self.eval_const(c)))
+                            self.vkey(a), self.eval_const(a),
+                            self.vkey(c), self.eval_const(c)))
             elif cmp_st is None or cmp_st["rv"]["k"] == "use":
                 # switch directly on an integer value: each target knows value == v
-                src = self.src_local(t["op"])
-                if src is not None and not src["p"] and fn.local_ty(src["l"]) in INT_RANGE:
+                k = self.vkey(t["op"])
+                if k is not None and self.key_ty(k) in INT_RANGE:
                     for v, bb in t["ts"]:
-                        out.append((bi, bb, None, "Eq", src["l"], None, None, v))
+                        out.append((bi, bb, None, "Eq", k, None, None, v))
         self._ce = out
         return out
 
@@ -731,10 +1023,12 @@ class Discharger:
     def range_of(self, local, site_bb):
         """(lo, hi) implied for `local` at site_bb by dominating comparison edges with constants, and by its type
         after a widening cast."""
+        local = self._canon(local)
         lo = hi = None
-        ty = self.fn.local_ty(local)
+        ty = self.key_ty(local)
+        nes = set()
         # through a widening/IntToInt cast from a narrower unsigned type
-        d = self.defs.single(local)
+        d = self.defs.single(local) if not isinstance(local, tuple) else None
         if d and d[0] == "st" and d[3]["k"] == "=" and d[3]["rv"]["k"] == "cast" and d[3]["rv"]["ck"] == "IntToInt":
             q = self.src_local(d[3]["rv"]["op"])
             if q is not None and not q["p"]:
@@ -771,7 +1065,23 @@ class Discharger:
                 elif o == "Eq":
                     lo = c if lo is None else max(lo, c)
                     hi = c if hi is None else min(hi, c)
+                elif o == "Ne":
+                    nes.add(c)
         if ty in INT_RANGE:
+            # `x != c` where c is the end of the known range (typically `x != 0` on an unsigned value)
+            elo = lo if lo is not None else INT_RANGE[ty][0]
+            ehi = hi if hi is not None else INT_RANGE[ty][1]
+            changed = True
+            while changed and nes:
+                changed = False
+                if elo in nes:
+                    elo += 1
+                    lo = elo
+                    changed = True
+                if ehi in nes:
+                    ehi -= 1
+                    hi = ehi
+                    changed = True
             if lo is None and hi is not None:
                 lo = INT_RANGE[ty][0]
             if hi is None and lo is not None:
@@ -780,6 +1090,7 @@ class Discharger:
 
     def dominating_cmp(self, a, b, site_bb):
         """a >= b holds at site"""
+        a, b = self._canon(a), self._canon(b)
         for (bi, tt, ft, op, al, ac, bl, bc) in self._cmp_edges():
             for target, truth in ((tt, True), (ft, False)):
                 if target is None or not self._edge_dominates(bi, target, site_bb):
@@ -792,6 +1103,7 @@ class Discharger:
         return False
 
     def dominating_lt(self, a, b, site_bb):
+        a, b = self._canon(a), self._canon(b)
         for (bi, tt, ft, op, al, ac, bl, bc) in self._cmp_edges():
             for target, truth in ((tt, True), (ft, False)):
                 if target is None or not self._edge_dominates(bi, target, site_bb):
@@ -804,6 +1116,7 @@ class Discharger:
         return False
 
     def ne_zero_guard(self, local, site_bb):
+        local = self._canon(local)
         for (bi, tt, ft, op, al, ac, bl, bc) in self._cmp_edges():
             for target, truth in ((tt, True), (ft, False)):
                 if target is None or not self._edge_dominates(bi, target, site_bb):
